@@ -59,7 +59,7 @@ func TestCheck(t *testing.T) {
 	specs := allSpecs()
 	r.Rule(fmt.Sprintf("case i probes cell i mod %d of the table boundary×operation×value-kind×fork (every cell the same number of times) with a value from charon's eth2 fuzzer seeded by the case PRNG: "+
 		"(a) hand in, scribble the caller's copy, read; (b) two readers / two subscribers; (c) scribble one result, read again / re-store; (d) the same from 4–8 goroutines with one mutating owner; "+
-		"non-trivial = the probed values reach at least one piece of mutable memory (pointer, slice backing, map) and every phase ran; distinct = hash(cell, deep digest of the value, goroutine count)", len(specs)))
+		"non-trivial = the probed values reach at least one piece of mutable memory (pointer, slice backing, map) and at least the hand-in and the two-observer phases ran; distinct = hash(cell, deep digest of the value, goroutine count)", len(specs)))
 	r.Assume("reflection walker (harness/c18/alias) sees all mutable memory of the workflow types: pointers, slices, maps, unexported fields via reflect.NewAt; strings/funcs/chans are treated as immutable; checked by alias's own unit tests and by mutants")
 	r.Assume("content equality is judged on the core JSON encoding (plus SSZ-independent deep digest between two reads of the same kind); fields no encoding carries (VersionedProposal.ConsensusValue/ExecutionValue) are only covered by the overlap oracle and the deep digest")
 	r.Assume("the harness-supplied Deadliner schedules every expiring duty and never expires one; beacon-node, DutyDB/AggSigDB inputs of fetcher and the sigagg verify function are harness stubs")
@@ -90,12 +90,6 @@ func TestCheck(t *testing.T) {
 		pc.finish()
 		runtime.KeepAlive(pc.keep)
 		r.Count("info_wall_ms:"+sp.Comp, time.Since(t0).Milliseconds())
-		if d := time.Since(t0); d > 3*time.Second {
-			r.Count("info_probes_slower_than_3s", 1)
-			if os.Getenv("C18_DEBUG") != "" {
-				fmt.Printf("SLOW %v case %d %s/%s %s\n", d, c.Idx, sp.Comp, sp.Op, sp.Label)
-			}
-		}
 	})
 	r.Count("cells_covered", int64(r.SeenCount("cells_probed")))
 }
